@@ -17,7 +17,7 @@ package main
 //	                                    before/after Next and the error handler (the context's route
 //	                                    is the middleware's)
 //	All("/mh/:id/:name?", h1, h2)       first of two handlers of one route, then the second
-//	Group("/grp/:gid").All("/item/:id") parameters from a group prefix
+//	Group("/grp/:a").All("/item/:id")   parameters from a group prefix
 //	Use("/mnt", subApp)                 route of a mounted sub-application
 //	All("/err/:id/:name?")              a handler that obtains values and returns an error: the
 //	                                    error handler runs after it
@@ -73,7 +73,7 @@ func siteLetters(v int) []*letter {
 	get("site-two-handlers", "site=two-handlers-on-one-route", "/mh/"+fl("mh-id")+"/"+fl("mh-name"), map[string]string{
 		"first-of-two-handlers@Params|name": fl("mh-name"), "route-handler@Params|id": fl("mh-id")})
 	get("site-group", "site=group-prefix-parameter", "/grp/"+fl("grp-id")+"/item/"+fl("item-id"), map[string]string{
-		"route-handler@Params|gid": fl("grp-id"), "route-handler@Params|id": fl("item-id"), "route-handler@Route.Path|": "/grp/:gid/item/:id"})
+		"route-handler@Params|a": fl("grp-id"), "route-handler@Params|id": fl("item-id"), "route-handler@Route.Path|": "/grp/:a/item/:id"})
 	get("site-mount", "site=mounted-sub-app", "/mnt/x/"+fl("mounted-id"), map[string]string{"route-handler@Params|id": fl("mounted-id")})
 	get("site-fail", "site=failing-handler", "/err/"+fl("err-id")+"/"+fl("err-name"), map[string]string{
 		"failing-handler@Params|id": fl("err-id"), "error-handler@Params|name": fl("err-name"), "error-handler@OriginalURL|": "/err/" + fl("err-id") + "/" + fl("err-name") + "?q=" + fl("sq-site-fail") + "&tag=" + fl("st")})
@@ -131,7 +131,7 @@ func (s *session) buildBare(fc fiber.Config) {
 	app.All("/mw/:id/*", s.routeHandler)
 	app.Use("/mx/:id", s.middleware)
 	app.All("/mh/:id/:name?", s.firstOfTwo, s.routeHandler)
-	app.Group("/grp/:gid").All("/item/:id", s.routeHandler)
+	app.Group("/grp/:a").All("/item/:id", s.routeHandler)
 	sub := fiber.New(fiber.Config{Immutable: fc.Immutable})
 	sub.All("/x/:id", s.routeHandler)
 	app.Use("/mnt", sub)
